@@ -371,7 +371,8 @@ def to_vector(c):
     if c is None or c is False:
         return c
     if hasattr(c, vector):
-        return c
+        # already labelled: keep the labels, but still normalize
+        return c / np.sqrt((c**2).sum(vector))
     if isinstance(c, dict):
         c = c.copy()
         for key, val in c.items():
